@@ -414,6 +414,22 @@ func runC04(r *core.Run) {
 				cfg, docs, func(s *core.Sub, cv *core.Conv, w []byte) { c04Case(s, cv, w, "markup-in-sinks") })
 		}
 	}
+	{
+		toks := []string{"a", " ", "'", "\"", "--", "...", "<<", ">>", "<", ">", "\n", "a href=javascript:x", "img src=vbscript:y"}
+		tn := core.Pick(r, 4, 5)
+		for _, v := range core.TypographerVariants() {
+			cfg := core.MustCfg("x:" + v)
+			wordsSub(r, "typographer-substitutions/"+v, "the Typographer built with WithTypographicSubstitutions where one punctuation (or all) maps to nil / an empty value / a custom reference; words that spell tags with script URLs between the typographic sequences: output tokenizes and no href/src holds a forbidden URL",
+				toks, tn, func(s *core.Sub, w int) func([]byte) uint64 {
+					cv := core.NewConv(cfg)
+					return func(word []byte) uint64 {
+						out := c04Case(s, cv, word, "typographer-substitutions")
+						s.Evals.Add(1)
+						return core.Hash(out)
+					}
+				})
+		}
+	}
 }
 
 func replayC04(r *core.Run, v *core.Violation) {
